@@ -1,7 +1,7 @@
 (* C16 - libavoid geometry predicates agree with exact arithmetic.
    Only statements closed by `exact`; the proofs live in Geom/GeomProofs.v and are about the
    definitions regenerated from /repo/cola/libavoid/geometry.{h,cpp} by tools/cpp2v.py. *)
-From Adapt Require Import Num.Qaux Geom.GeomSpec Geom.GeomSpecDec Gen.Geometry Geom.GeomProofs.
+From Adapt Require Import Num.Qaux Geom.GeomSpec Geom.GeomSpecDec Gen.Geometry Geom.GeomProofs Geom.Symmetry.
 Local Open Scope Q_scope.
 
 Theorem C16_vecDir_spec a b c :
@@ -110,3 +110,27 @@ Theorem C16_inPolyGen_rect x0 x1 y0 y1 o q : x0 < x1 -> y0 < y1 -> In o rect_ord
   (inPolyGen (rect_poly o x0 x1 y0 y1) q = true <-> in_closed_rect x0 x1 y0 y1 q).
 Proof. exact (inPolyGen_rect x0 x1 y0 y1 o q). Qed.
 Print Assumptions C16_inPolyGen_rect.
+
+(* ---- C16 extension: the eight symmetries of the square (orientation sign tracked) and translations *)
+Theorem C16_square_symmetries s :
+  (forall a b c, vecDir (sq_apply s a) (sq_apply s b) (sq_apply s c) 0 = (sq_sign s * vecDir a b c 0)%Z) /\
+  (forall a b c d, segmentIntersect (sq_apply s a) (sq_apply s b) (sq_apply s c) (sq_apply s d) = segmentIntersect a b c d) /\
+  (forall a b c, pointOnLine (sq_apply s a) (sq_apply s b) (sq_apply s c) 0 = pointOnLine a b c 0) /\
+  (sq_sign s = 1%Z -> forall P q cb, inPoly (map (sq_apply s) P) (sq_apply s q) cb = inPoly P q cb) /\
+  (sq_sign s = (-1)%Z -> forall P q cb, inPoly (rev (map (sq_apply s) P)) (sq_apply s q) cb = inPoly P q cb).
+Proof.
+  exact (conj (vecDir_symmetry s) (conj (segmentIntersect_symmetry s) (conj (pointOnLine_symmetry s)
+        (conj (fun H P q cb => inPoly_symmetry_rot s P q cb H) (fun H P q cb => inPoly_symmetry_refl s P q cb H))))).
+Qed.
+Print Assumptions C16_square_symmetries.
+
+Theorem C16_translations t :
+  (forall a b c, vecDir (pt_add a t) (pt_add b t) (pt_add c t) 0 = vecDir a b c 0) /\
+  (forall a b c d, segmentIntersect (pt_add a t) (pt_add b t) (pt_add c t) (pt_add d t) = segmentIntersect a b c d) /\
+  (forall a b c, pointOnLine (pt_add a t) (pt_add b t) (pt_add c t) 0 = pointOnLine a b c 0) /\
+  (forall P q cb, inPoly (map (fun p => pt_add p t) P) (pt_add q t) cb = inPoly P q cb).
+Proof.
+  exact (conj (fun a b c => vecDir_translate a b c t) (conj (fun a b c d => segmentIntersect_translate a b c d t)
+        (conj (fun a b c => pointOnLine_translate a b c t) (fun P q cb => inPoly_translate P q cb t)))).
+Qed.
+Print Assumptions C16_translations.
